@@ -189,7 +189,24 @@ package common
 //@     && "SCTP" in c.AllowedProtocols && fullRange(c.AllowedProtocols["SCTP"])
 //@ fun npts(c *ConnectionSet, q v1.Protocol, s string) bool = q in c.AllowedProtocols && s in c.AllowedProtocols[q].NamedPorts
 
+// two-state: every heap cell that wfCS / sepCS / pts / npts read of t is unchanged since the entry of the function
+//@ pred samePS(p *PortSet) = p.Ports == old(p.Ports) && p.NamedPorts == old(p.NamedPorts) && p.ExcludedNamedPorts == old(p.ExcludedNamedPorts)
+//@     && iset(p.Ports) == old(iset(p.Ports)) && dom(p.NamedPorts) == old(dom(p.NamedPorts)) && dom(p.ExcludedNamedPorts) == old(dom(p.ExcludedNamedPorts))
+//@     && (forall s string :: {p.NamedPorts[s]} p.NamedPorts[s] == old(p.NamedPorts[s]))
+//@     && (forall s string :: {p.ExcludedNamedPorts[s]} p.ExcludedNamedPorts[s] == old(p.ExcludedNamedPorts[s]))
+//@ pred sameCS(t *ConnectionSet) = t.AllowAll == old(t.AllowAll) && t.AllowedProtocols == old(t.AllowedProtocols)
+//@     && dom(t.AllowedProtocols) == old(dom(t.AllowedProtocols))
+//@     && (forall q v1.Protocol :: {q in t.AllowedProtocols} {t.AllowedProtocols[q]} q in t.AllowedProtocols ==>
+//@             (t.AllowedProtocols[q] == old(t.AllowedProtocols[q]) && samePS(t.AllowedProtocols[q])))
+// frame, stated as a postcondition: a well-formed set that shares nothing with the updated one is untouched
+//@ pred othersKept(conn *ConnectionSet) = forall t *ConnectionSet :: {t.AllowedProtocols}
+//@     (old(wfCS(t)) && old(sepCS(conn, t))) ==> (sameCS(t) && wfCS(t) && sepCS(conn, t))
+
+// functions that only allocate: every existing well-formed set is untouched
+//@ pred allKept() = forall t *ConnectionSet :: {t.AllowedProtocols} old(wfCS(t)) ==> (sameCS(t) && wfCS(t))
+
 //@ func MakeConnectionSet
+//@   ensures [C11,C02] kept: allKept()
 //@   ensures [C11,C05] wf: wfCS(res) && fresh(res) && fresh(res.AllowedProtocols)
 //@   ensures [C11,C05] val: res.AllowAll == all && (forall q v1.Protocol :: {q in res.AllowedProtocols} !(q in res.AllowedProtocols))
 
@@ -219,12 +236,14 @@ package common
 //@   ensures [C11] added: (noNums(ports) && noNames(ports)) || protocol in conn.AllowedProtocols
 //@   ensures [C11] newexcl: (!old(protocol in conn.AllowedProtocols) && protocol in conn.AllowedProtocols) ==>
 //@         dom(conn.AllowedProtocols[protocol].ExcludedNamedPorts) == dom(ports.ExcludedNamedPorts)
+//@   ensures [C11,C02] others: othersKept(conn)
 
 //@ func GetAllTCPConnections
 //@   ensures [C11] wf: wfCS(res) && fresh(res) && fresh(res.AllowedProtocols) && !res.AllowAll
 //@   ensures [C11] owned: forall q v1.Protocol :: {q in res.AllowedProtocols} q in res.AllowedProtocols ==> freshPS(res.AllowedProtocols[q])
 //@   ensures [C11,C10] pts: forall q v1.Protocol, n int :: {iset(res.AllowedProtocols[q].Ports)[n]} ptsP(res, q, n) == (q == "TCP" && 1 <= n && n <= 65535)
 //@   ensures [C11] npts: forall q v1.Protocol, s string :: {s in res.AllowedProtocols[q].NamedPorts} !npts(res, q, s)
+//@   ensures [C11,C02] kept: allKept()
 
 //@ func (*ConnectionSet).Copy
 //@   requires wfCS(conn)
@@ -235,8 +254,10 @@ package common
 //@         (iset(res.AllowedProtocols[q].Ports) == iset(conn.AllowedProtocols[q].Ports)
 //@          && dom(res.AllowedProtocols[q].NamedPorts) == dom(conn.AllowedProtocols[q].NamedPorts)
 //@          && dom(res.AllowedProtocols[q].ExcludedNamedPorts) == dom(conn.AllowedProtocols[q].ExcludedNamedPorts))
+//@   ensures [C11,C02] kept: allKept()
 //@   loop 1:
 //@     invariant sub: forall q v1.Protocol :: {seen(q)} seen(q) ==> q in conn.AllowedProtocols
+//@     invariant kept: allKept()
 //@     invariant dom: forall q v1.Protocol :: {q in res.AllowedProtocols} (q in res.AllowedProtocols) == seen(q)
 //@     invariant elems: forall q v1.Protocol :: {q in res.AllowedProtocols} q in res.AllowedProtocols ==>
 //@         (wfPS(res.AllowedProtocols[q]) && freshPS(res.AllowedProtocols[q])
@@ -311,6 +332,7 @@ package common
 //@   ensures [C11,C05] canon: canonCS(conn)
 //@   ensures [C11,C05] collapse: (old(!conn.AllowAll && allExplicit(conn))) ==> (conn.AllowAll && fresh(conn.AllowedProtocols))
 //@   ensures [C11,C05] keep: !(old(!conn.AllowAll && allExplicit(conn))) ==> (conn.AllowAll == old(conn.AllowAll) && conn.AllowedProtocols == old(conn.AllowedProtocols))
+//@   ensures [C11,C02] others: othersKept(conn)
 
 //@ func (*ConnectionSet).addAllConns
 //@   requires wfCS(conn) && !conn.AllowAll && (forall q v1.Protocol :: {q in conn.AllowedProtocols} !(q in conn.AllowedProtocols))
@@ -319,8 +341,10 @@ package common
 //@   ensures [C11] dom: forall q v1.Protocol :: {q in conn.AllowedProtocols} (q in conn.AllowedProtocols) == isProto(q)
 //@   ensures [C11] full: forall q v1.Protocol :: {q in conn.AllowedProtocols} q in conn.AllowedProtocols ==>
 //@         (freshPS(conn.AllowedProtocols[q]) && isAllPS(conn.AllowedProtocols[q]) && iset(conn.AllowedProtocols[q].Ports)[1])
+//@   ensures [C11,C02] others: othersKept(conn)
 //@   loop 1:
 //@     invariant idx: 0 - 1 <= rangeindex && rangeindex < 3
+//@     invariant others: othersKept(conn)
 //@     invariant wf: wfCS(conn) && !conn.AllowAll
 //@     invariant dom: forall q v1.Protocol :: {q in conn.AllowedProtocols} (q in conn.AllowedProtocols) ==
 //@         ((q == "TCP" && rangeindex >= 0) || (q == "UDP" && rangeindex >= 1) || (q == "SCTP" && rangeindex >= 2))
@@ -338,8 +362,10 @@ package common
 //@   ensures [C11] npts: !conn.AllowAll ==> (forall q v1.Protocol, s string :: {s in conn.AllowedProtocols[q].NamedPorts}
 //@         npts(conn, q, s) == (old(npts(conn, q, s)) || npts(other, q, s)))
 //@   ensures [C11,C05] canon: old(canonCS(conn)) ==> canonCS(conn)
+//@   ensures [C11,C02] others: othersKept(conn)
 //@   loop 1:
 //@     invariant wf: wfCS(conn) && sepCS(conn, other) && !conn.AllowAll
+//@     invariant others: othersKept(conn)
 //@     invariant sub: forall q v1.Protocol :: {seen(q)} seen(q) ==> q in conn.AllowedProtocols
 //@     invariant done: forall q v1.Protocol, n int :: {iset(conn.AllowedProtocols[q].Ports)[n]} (q in conn.AllowedProtocols && seen(q)) ==>
 //@         iset(conn.AllowedProtocols[q].Ports)[n] == (old(iset(conn.AllowedProtocols[q].Ports)[n]) || ptsP(other, q, n))
@@ -350,6 +376,7 @@ package common
 //@         (s in conn.AllowedProtocols[q].NamedPorts) == (old(s in conn.AllowedProtocols[q].NamedPorts) || npts(other, q, s))
 //@   loop 2:
 //@     invariant wf: wfCS(conn) && sepCS(conn, other) && !conn.AllowAll && conn.AllowedProtocols == old(conn.AllowedProtocols)
+//@     invariant others: othersKept(conn)
 //@     invariant sub: forall q v1.Protocol :: {seen(q)} seen(q) ==> q in other.AllowedProtocols
 //@     invariant keep: forall q v1.Protocol :: {q in conn.AllowedProtocols} old(q in conn.AllowedProtocols) ==>
 //@         (q in conn.AllowedProtocols && conn.AllowedProtocols[q] == old(conn.AllowedProtocols[q]))
@@ -371,7 +398,9 @@ package common
 //@   ensures [C11,C01,C02] pts: forall q v1.Protocol, n int :: {iset(conn.AllowedProtocols[q].Ports)[n]} {old(iset(conn.AllowedProtocols[q].Ports)[n])} {iset(other.AllowedProtocols[q].Ports)[n]}
 //@         pts(conn, q, n) == (old(pts(conn, q, n)) && pts(other, q, n))
 //@   ensures [C11,C05] canon: (old(canonCS(conn)) && canonCS(other)) ==> canonCS(conn)
+//@   ensures [C11,C02] others: othersKept(conn)
 //@   loop 1:
+//@     invariant others: othersKept(conn)
 //@     invariant wf: wfCS(conn) && sepCS(conn, other) && !conn.AllowAll && conn.AllowedProtocols == old(conn.AllowedProtocols)
 //@     invariant sub: forall q v1.Protocol :: {seen(q)} seen(q) ==> q in other.AllowedProtocols
 //@     invariant dom: forall q v1.Protocol :: {q in conn.AllowedProtocols} (q in conn.AllowedProtocols) == seen(q)
@@ -380,6 +409,7 @@ package common
 //@          && dom(conn.AllowedProtocols[q].NamedPorts) == dom(other.AllowedProtocols[q].NamedPorts)
 //@          && dom(conn.AllowedProtocols[q].ExcludedNamedPorts) == dom(other.AllowedProtocols[q].ExcludedNamedPorts))
 //@   loop 2:
+//@     invariant others: othersKept(conn)
 //@     invariant wf: wfCS(conn) && sepCS(conn, other) && !conn.AllowAll && !old(conn.AllowAll) && conn.AllowedProtocols == old(conn.AllowedProtocols)
 //@     invariant sub: forall q v1.Protocol :: {seen(q)} seen(q) ==> old(q in conn.AllowedProtocols)
 //@     invariant shrink: forall q v1.Protocol :: {q in conn.AllowedProtocols} q in conn.AllowedProtocols ==>
@@ -399,8 +429,10 @@ package common
 //@   ensures [C11,C05,C02] wf: wfCS(conn) && sepCS(conn, other)
 //@   ensures [C11,C02] pts: forall q v1.Protocol, n int :: {iset(conn.AllowedProtocols[q].Ports)[n]} {old(iset(conn.AllowedProtocols[q].Ports)[n])} {iset(other.AllowedProtocols[q].Ports)[n]}
 //@         pts(conn, q, n) == (old(pts(conn, q, n)) && !pts(other, q, n))
+//@   ensures [C11,C02] others: othersKept(conn)
 //@   loop 1:
 //@     invariant wf: wfCS(conn) && sepCS(conn, other) && !conn.AllowAll
+//@     invariant others: othersKept(conn)
 //@     invariant sub: forall q v1.Protocol :: {seen(q)} seen(q) ==> pre(q in conn.AllowedProtocols)
 //@     invariant shrink: forall q v1.Protocol :: {q in conn.AllowedProtocols} q in conn.AllowedProtocols ==>
 //@         (pre(q in conn.AllowedProtocols) && conn.AllowedProtocols[q] == pre(conn.AllowedProtocols[q]))
